@@ -10,7 +10,9 @@ package raft
 
 import (
 	"fmt"
+	"runtime"
 	"sort"
+	"strings"
 	"time"
 
 	"github.com/santhosh-tekuri/raft/log"
@@ -410,6 +412,7 @@ func (d *driver) recv() {
 func (d *driver) guard(what string, fn func()) {
 	defer func() {
 		if v := recover(); v != nil {
+			frames := simPanicFrames()
 			var fatal bool
 			func() {
 				defer func() {
@@ -421,12 +424,49 @@ func (d *driver) guard(what string, fn func()) {
 				d.repl.notifyLdr(err)
 			}()
 			if fatal {
-				d.n.w.led.violate("alive", "replication-goroutine-panic:"+simErrClass(fmt.Errorf("%v", v)), fmt.Sprintf("replication of leader %d to node %d (%s): %v - recoverErr re-panics: the process terminates", d.n.id, d.fid, what, v))
+				d.n.w.led.violate("alive", "replication-goroutine-panic:"+simErrClass(fmt.Errorf("%v", v)), fmt.Sprintf("replication of leader %d to node %d (%s): %v - recoverErr re-panics: the process terminates; stack: %s", d.n.id, d.fid, what, v, frames))
 			}
 			d.stop()
 		}
 	}()
 	fn()
+}
+
+// simPanicFrames condenses the stack of the panic being recovered: the
+// function names between runtime.panic and the guard, innermost first.
+func simPanicFrames() string {
+	buf := make([]byte, 1<<16)
+	buf = buf[:runtime.Stack(buf, false)]
+	var out []string
+	seenPanic := false
+	lines := strings.Split(string(buf), "\n")
+	for i := 0; i+1 < len(lines); i++ {
+		l := lines[i]
+		if strings.HasPrefix(l, "panic(") {
+			seenPanic = true
+			continue
+		}
+		if !seenPanic || strings.HasPrefix(l, "\t") || strings.HasPrefix(l, "runtime.") {
+			continue
+		}
+		fn := l
+		if j := strings.LastIndex(fn, "("); j > 0 {
+			fn = fn[:j]
+		}
+		fn = strings.TrimPrefix(fn, "github.com/santhosh-tekuri/raft")
+		loc := strings.TrimSpace(lines[i+1])
+		if j := strings.Index(loc, " +0x"); j > 0 {
+			loc = loc[:j]
+		}
+		if j := strings.LastIndex(loc, "/"); j >= 0 {
+			loc = loc[j+1:]
+		}
+		out = append(out, fn+"@"+loc)
+		if strings.Contains(fn, "guard") || len(out) >= 8 {
+			break
+		}
+	}
+	return strings.Join(out, " < ")
 }
 
 // connFail is the deviation "the connection breaks under the stream".
